@@ -116,11 +116,41 @@ const (
 	stPadAsym  // span, padding: 1px 5px 6px (bottom larger than top: must not change the line either)
 	stVertAll  // span, vertical margins, borders and paddings that differ between top and bottom, nothing horizontal
 	stGlued    // plain span that opens inside word 2 (no break opportunity at its start) and closes after word 3
+	// word 2 replaced by an atomic inline of width 35px that holds the two words "x y": the space
+	// inside it belongs to another inline formatting context (it is no justification opportunity
+	// of the line, no break opportunity of the paragraph, and does not collapse with the
+	// paragraph's spaces)
+	stIBlockSp // display: inline-block
+	stITableSp // display: inline-table
+	stIFlexSp  // display: inline-flex
 	nStruct
 )
 
+// atomicSpec describes the atomic inline a structure puts in place of word 2.
+type atomicSpec struct {
+	display string
+	width   float64
+	height  float64 // 0: auto (one line of text)
+	text    string
+	css     string // further declarations
+}
+
+var atomics = map[int]atomicSpec{
+	stIBlock:   {"inline-block", ibWidth, ibHeight, "", ""},
+	stIBlockTx: {"inline-block", ibWidth, 0, "xy", ""},
+	// text-indent is inherited: with the paragraph's 20px the two words would not fit the 35px
+	// any more and the atomic inline would be two lines high (calibration: the unchanged tree does
+	// just that); it is reset so that the inside stays one line whatever the row
+	stIBlockSp: {"inline-block", ibSpWidth, 0, "x y", ";text-indent:0"},
+	stITableSp: {"inline-table", ibSpWidth, 0, "x y", ";text-indent:0"},
+	stIFlexSp:  {"inline-flex", ibSpWidth, 0, "x y", ";text-indent:0"},
+}
+
+func isAtomicStruct(st int) bool { _, ok := atomics[st]; return ok }
+
 var structName = [nStruct]string{"none", "span", "span-margin", "span-padding", "span-border", "span-margin-left",
-	"span-margin-right", "span-mbp", "nested-spans", "inline-block", "inline-block-text", "big-font", "span-padding-bottom-heavy", "span-vertical-mbp", "span-glued"}
+	"span-margin-right", "span-mbp", "nested-spans", "inline-block", "inline-block-text", "big-font", "span-padding-bottom-heavy", "span-vertical-mbp", "span-glued",
+	"inline-block-spaced", "inline-table-spaced", "inline-flex-spaced"}
 
 type row struct {
 	ws        string // normal nowrap pre pre-wrap pre-line
@@ -175,17 +205,18 @@ var (
 )
 
 const (
-	ibWidth  = 25.0
-	ibHeight = 15.0
-	objRune  = '\uFFFC' // stands for an atomic inline in line texts
+	ibWidth   = 25.0
+	ibHeight  = 15.0
+	ibSpWidth = 35.0     // "x y" is 30px wide: one line inside, 5px to spare
+	objRune   = '\uFFFC' // stands for an atomic inline in line texts
 )
 
 // element of the inline content of the paragraph, in document order
 type elem struct {
-	kind  int // 0 text, 1 span open, 2 span close, 3 atomic
-	text  string
-	span  spanSpec
-	withT bool // atomic: inline-block with text
+	kind   int // 0 text, 1 span open, 2 span close, 3 atomic
+	text   string
+	span   spanSpec
+	atomic atomicSpec
 }
 
 // content builds the inline content of (p, structure).
@@ -257,8 +288,8 @@ func content(p para, st int) []elem {
 		if inner != nil && i == e {
 			out = append(out, elem{kind: 1, span: *inner})
 		}
-		if (st == stIBlock || st == stIBlockTx) && i == s {
-			out = append(out, elem{kind: 3, withT: st == stIBlockTx})
+		if isAtomicStruct(st) && i == s {
+			out = append(out, elem{kind: 3, atomic: atomics[st]})
 		} else {
 			text(p.word(i))
 		}
@@ -306,10 +337,11 @@ func document(p para, r row, wEm int, pageH int) string {
 		case 2:
 			sb.WriteString(`</span>`)
 		case 3:
-			if el.withT {
-				fmt.Fprintf(&sb, `<span style="display:inline-block;width:%gpx">xy</span>`, ibWidth)
+			a := el.atomic
+			if a.height == 0 {
+				fmt.Fprintf(&sb, `<span style="display:%s;width:%gpx%s">%s</span>`, a.display, a.width, a.css, a.text)
 			} else {
-				fmt.Fprintf(&sb, `<span style="display:inline-block;width:%gpx;height:%gpx"></span>`, ibWidth, ibHeight)
+				fmt.Fprintf(&sb, `<span style="display:%s;width:%gpx;height:%gpx%s">%s</span>`, a.display, a.width, a.height, a.css, a.text)
 			}
 		}
 	}
